@@ -67,7 +67,7 @@ impl<M: MovingAverageConstructor> IndicatorConfig for Trix<M> {
 
 			Ok(Self::Instance {
 				tma: TMA::new(self.period1, &src)?,
-				sig: self.signal.init(src)?,
+				sig: self.signal.init(0.0)?,
 				change: Change::new(1, &src)?,
 				cross1: Cross::new((), &(src, src))?,
 				cross2: Cross::new((), &(src, src))?,
